@@ -71,6 +71,13 @@ MASA::manufactured_solution<Scalar>::manufactured_solution()
   vecarr.push_back(&dumvec);   // dummy used to start index at correct location
   }
 
+#ifdef MASA_VERIF
+template <typename Scalar>
+long MASA::verif_live_token<Scalar>::count = 0;
+template struct MASA::verif_live_token<double>;
+template struct MASA::verif_live_token<long double>;
+#endif
+
 // define PI and other constants
 namespace {
   using std::acos;
